@@ -109,3 +109,32 @@ func VerifC03_Project() {
 	verifAssert("nothing.alive.at.end", vAliveTotal() == 0)
 	verifReach("end")
 }
+
+// C03 (shutdown while a process is already being stopped): a stop request on a process that
+// is slow to die is followed by the project shutdown; when the shutdown returns that process
+// must have exited too.
+func VerifC03_AlreadyStopping() {
+	w := vInit()
+	ordered := verifChooseK("ordered", 2) == 1
+	a := vConf("a", nil)
+	b := vConf("b", nil)
+	// a dies only when nothing else can happen; b at once
+	w.behav["a"] = &vBehav{untilStop: []bool{true}, latency: 1}
+	w.behav["b"] = &vBehav{untilStop: []bool{true}}
+	r := vRunner(vProject(a, b), ordered)
+	runDone := make(chan error, 1)
+	go func() { runDone <- r.Run() }()
+	verifQuiesce()
+	stopDone := make(chan error, 1)
+	go func() { stopDone <- r.StopProcess("a") }()
+	verifYield("client:shutdown") // the stop request runs first (or concurrently, by the delay bound)
+	_ = r.ShutDownProject()
+	if n := vAliveTotal(); n != 0 {
+		verifShape("alive:" + vAliveNames())
+		verifFail("alive.after.shutdown.returned")
+	}
+	<-stopDone
+	<-runDone
+	verifQuiesce()
+	verifReach("end")
+}
